@@ -98,14 +98,20 @@ def stale_dependence(val):
     return sorted(v for v in free_vars(val) if v.startswith("stale_"))
 
 
-def prove_equal(a, b, bits, timeout_ms=60000, hyps=()):
-    """-> ('proved' | 'refuted' | 'unknown', model or None, seconds)"""
+def prove_equal(a, b, bits, timeout_ms=60000, hyps=(), sim=None):
+    """-> ('proved' | 'refuted' | 'unknown', model or None, seconds).  With a CutTable `sim`, both sides are first evaluated
+    concretely under random inputs (cut symbols take the values of their definitions): a difference is a concrete
+    counterexample; equality is only ever concluded from the solver."""
     t = time.time()
     if is_c(a) and is_c(b):
         return ("proved" if (a & mask(bits)) == (b & mask(bits)) else "refuted"), None, 0.0
     ta, tb = tz(a, bits), tz(b, bits)
     if ta.eq(tb):
         return "proved", None, 0.0
+    if sim is not None:
+        w = sim.differs(ta, tb)
+        if w is not None:
+            return "refuted", w, time.time() - t
     sa, sb = z3.simplify(ta), z3.simplify(tb)
     if sa.eq(sb):
         return "proved", None, time.time() - t
@@ -215,10 +221,42 @@ class CutTable:
         if is_c(spec_term):
             return spec_term
         sym = z3.BitVec("cut_" + label.replace(" ", "_"), spec_term.size())
+        if not hasattr(self, "order_index"):
+            self.order_index = {}
+        self.order_index[sym.decl().name()] = len(self.order_index)
         self.env[sym.decl().name()] = self._sig(spec_term)
         self.by_sig.setdefault(self.env[sym.decl().name()], []).append((label, spec_term, sym))
         self.symbols[label] = sym
         return sym
+
+    def differs(self, a, b, trials=3):
+        """concrete evaluation under the main environment and `trials` further random environments (each consistent with the
+        cut definitions, evaluated in registration order); returns a witness dict or None"""
+        import bveval
+        if self._sig(a) != self._sig(b):
+            return {"environment": "primary", "lhs": hex(self._sig(a)), "rhs": hex(self._sig(b))}
+        if not hasattr(self, "extra"):
+            self.extra = []
+        while len(self.extra) < trials:
+            self.extra.append(({}, {}))
+        names = free_vars(a) | free_vars(b)
+        for k, (env, memo) in enumerate(self.extra):
+            order = [(sym, spec) for lst in self.by_sig.values() for (lab, spec, sym) in lst if not lab.startswith("T") or " from " not in lab]
+            # base variables
+            todo = set(names)
+            for sym, spec in order:
+                todo |= free_vars(spec)
+            for n_ in todo:
+                if n_ not in env and not n_.startswith("cut_"):
+                    env[n_] = self.rnd.getrandbits(512)
+            for sym, spec in sorted(order, key=lambda x: self.order_index.get(x[0].decl().name(), 0)):
+                n_ = sym.decl().name()
+                if n_ not in env:
+                    env[n_] = bveval.evaluate(spec, env, memo)
+            va, vb = bveval.evaluate(a, env, memo), bveval.evaluate(b, env, memo)
+            if va != vb:
+                return {"environment": "random #%d" % (k + 1), "lhs": hex(va), "rhs": hex(vb)}
+        return None
 
     def alias(self, label, spec_term, sym):
         """a second defining term for an existing cut symbol (the caller has proved the two definitions equal)"""
